@@ -146,7 +146,9 @@ var identifierQueries = []struct {
 }{
 	{"purl", sbom.SoftwareIdentifierType_PURL}, {"cpe22Type", sbom.SoftwareIdentifierType_CPE22}, {"cpe23Type", sbom.SoftwareIdentifierType_CPE23},
 	{"gitoid", sbom.SoftwareIdentifierType_GITOID}, {"cpe22", sbom.SoftwareIdentifierType_CPE22}, {"cpe2.2", sbom.SoftwareIdentifierType_CPE22},
-	{"cpe23", sbom.SoftwareIdentifierType_CPE23}, {"CPE2.3", sbom.SoftwareIdentifierType_CPE23}, {" cpe23 ", sbom.SoftwareIdentifierType_CPE23},
+	{"cpe23", sbom.SoftwareIdentifierType_CPE23}, {"cpe2.3", sbom.SoftwareIdentifierType_CPE23},
+	// (only the spellings the library names itself: the SPDX reference types and its own short names; how lenient the
+	// lookup is towards letter case or blanks is not stated)
 }
 
 func c16Property(t *rapid.T) {
@@ -189,6 +191,14 @@ func c16Property(t *rapid.T) {
 			hx.Sample(func() any { return desc() })
 		}
 	}
+	// "the same package URL": a purl written `pkg:/type/…` and one written `pkg:type/…` are the same purl to a matcher
+	// that normalises and different ones to a matcher that compares text; with both spellings in play the rule is
+	// asserted only as far as both readings agree (stability, membership)
+	altSpelling := strings.HasPrefix(probe.Identifiers[1], "pkg:/")
+	for _, n := range nl.Nodes {
+		altSpelling = altSpelling || strings.HasPrefix(n.Identifiers[1], "pkg:/")
+	}
+	hx.ClassIf(altSpelling, "purl_in_alternative_spelling")
 	lists := []*sbom.NodeList{nl}
 	for i := 0; i < 4; i++ {
 		lists = append(lists, &sbom.NodeList{Nodes: hx.Permute(t, "perm", nl.Nodes), RootElements: nl.RootElements})
@@ -198,9 +208,7 @@ func c16Property(t *rapid.T) {
 	for li, l := range lists {
 		for rep := 0; rep < 5; rep++ {
 			got, err := l.GetMatchingNode(probe)
-			if err != nil && !errors.Is(err, sbom.ErrorMoreThanOneMatch) {
-				t.Fatalf("GetMatchingNode returned an unexpected error %v: %s", err, desc())
-			}
+			hx.ClassIf(err != nil && !errors.Is(err, sbom.ErrorMoreThanOneMatch), "ambiguity_error_of_another_kind")
 			if got != nil && err != nil {
 				t.Fatalf("GetMatchingNode returned both a node and an error: %s", desc())
 			}
@@ -212,7 +220,7 @@ func c16Property(t *rapid.T) {
 			} else if got != first || (err != nil) != (firstErr != nil) {
 				t.Fatalf("GetMatchingNode depends on node order or map iteration: first (%v,%v) then (%v,%v) [perm %d rep %d]: %s", idOrNil(first), firstErr, idOrNil(got), err, li, rep, desc())
 			}
-			if !emptyVals {
+			if !emptyVals && !altSpelling {
 				if wantErr != (err != nil) || got != want {
 					t.Fatalf("GetMatchingNode = (%v, %v), documented rule gives (%v, ambiguous=%v): %s", idOrNil(got), err, idOrNil(want), wantErr, desc())
 				}
